@@ -26,7 +26,7 @@ import (
 
 func main() {
 	if len(os.Args) < 3 {
-		fmt.Fprintln(os.Stderr, "usage: wfrun run|fmt|tempdir|auditrt <file>")
+		fmt.Fprintln(os.Stderr, "usage: wfrun run|fmt|tempdir|auditrt|taskapi <file>")
 		os.Exit(64)
 	}
 	switch os.Args[1] {
@@ -38,6 +38,8 @@ func main() {
 		runTempDir(os.Args[2], os.Args[3])
 	case "auditrt":
 		runAuditRT(os.Args[2], os.Args[3])
+	case "taskapi":
+		runTaskAPI(os.Args[2])
 	default:
 		fmt.Fprintln(os.Stderr, "unknown mode")
 		os.Exit(64)
